@@ -23,7 +23,9 @@ LEVEL_TEXT = ('All documented boolean words in three letter cases and five '
               'string lengths around min/max; hex strings of length 30..34 in '
               'every decoration and case; 1000 generate_uuid draws in both '
               'forms: each compared with a reference classifier.')
-LEVEL_NOTE = ('Shapes are the listed alphabets, not arbitrary text. '
+LEVEL_NOTE = ('Shapes are the listed alphabets, not arbitrary text. The bool / integer / '
+              'length products are run with oslo.i18n lazy translation off and on; names and '
+              'values include printf- and format-style directives. '
               'check_string_length(max_length=0) ("no maximum") and uppercase '
               'URN:UUID: are left unclassified.')
 
@@ -35,7 +37,29 @@ NEAR = ['tru', 'yess', '2', '', ' ', 'o n', 'nope', 'tr ue', '01', '-1', 'None',
 NONSTR = [True, False, 0, 1, 2, None, 1.0, 0.0, b'true', [], -1]
 
 
-def _bool_case(vals, acc):
+def set_lazy(flag):
+    """oslo.i18n's process-wide switch (services enable it at start-up): with it the
+    library's _() returns Message objects instead of str. What a validator answers or
+    raises must not depend on it."""
+    try:
+        import oslo_i18n
+        oslo_i18n.enable_lazy(bool(flag))
+    except Exception:
+        pass
+
+
+def with_lazy(fn):
+    def case(vals, acc):
+        lazy = vals[-1]
+        set_lazy(lazy)
+        try:
+            fn(vals[:-1], acc, lazy)
+        finally:
+            set_lazy(False)
+    return case
+
+
+def _bool_case(vals, acc, lazy=False):
     from oslo_utils import strutils
     subject, strict, default = vals
     acc.nontrivial(repr(vals))
@@ -60,7 +84,7 @@ def _bool_case(vals, acc):
     if got != want or (got[0] == 'ret' and got[1] is not want[1]):
         acc.fail('bool_from_string', {'subject': repr(subject), 'strict': strict,
                                       'default': default, 'got': repr(got), 'want': repr(want)},
-                 {'bool': [repr(subject), strict, default]})
+                 {'bool': [repr(subject), strict, default], 'lazy': lazy})
         return
     # is_valid_boolstr agrees on unpadded input
     if isinstance(subject, (str, bool)) and (not isinstance(subject, str) or subject == subject.strip()):
@@ -118,7 +142,10 @@ def int_spellings(n):
             float(n)]
 
 
-def _int_case(vals, acc):
+NAMES = ['x', 'x%dy', '%(min_value)s', '100%', '{0}']
+
+
+def _int_case(vals, acc, lazy=False):
     from oslo_utils import strutils
     value, lo, hi = vals
     acc.nontrivial(repr(vals))
@@ -133,18 +160,20 @@ def _int_case(vals, acc):
         want = ('ValueError',)
     else:
         want = ('ret', lit)
-    try:
-        r = strutils.validate_integer(value, 'x', lo, hi)
-        got = ('ret', r)
-    except ValueError:
-        got = ('ValueError',)
-    except Exception as e:
-        got = ('raises', type(e).__name__)
-    if got != want or (got[0] == 'ret' and type(got[1]) is not int):
-        acc.fail('validate_integer', {'value': repr(value), 'min': lo, 'max': hi,
-                                      'got': repr(got), 'want': repr(want)},
-                 {'int': [repr(value), lo, hi]})
-        return
+    for name in NAMES:           # the name only goes into the message
+        try:
+            r = strutils.validate_integer(value, name, lo, hi)
+            got = ('ret', r)
+        except ValueError:
+            got = ('ValueError',)
+        except Exception as e:
+            got = ('raises', type(e).__name__)
+        if got != want or (got[0] == 'ret' and type(got[1]) is not int):
+            acc.fail('validate_integer', {'value': repr(value), 'name': name, 'min': lo, 'max': hi,
+                                          'lazy_translation': lazy,
+                                          'got': repr(got), 'want': repr(want)},
+                     {'int': [repr(value), lo, hi], 'lazy': lazy})
+            return
     # is_int_like: canonical base-10 rendering only
     if isinstance(value, bool) or value is None or isinstance(value, float):
         canon = False
@@ -161,7 +190,7 @@ def _int_case(vals, acc):
                  {'int': [repr(value), lo, hi]})
 
 
-def _len_case(vals, acc):
+def _len_case(vals, acc, lazy=False):
     from oslo_utils import strutils
     value, lo, hi = vals
     acc.nontrivial(repr((type(value).__name__, len(value) if hasattr(value, '__len__') else value, lo, hi)))
@@ -171,7 +200,7 @@ def _len_case(vals, acc):
         want = 'ValueError'
     else:
         want = 'ok'
-    for name in (None, 'field'):
+    for name in (None, 'field', 'f%dg', '%(name)s'):
         try:
             r = strutils.check_string_length(value, name=name, min_length=lo, max_length=hi)
             got = 'ok' if r is None else 'returned %r' % (r,)
@@ -182,9 +211,10 @@ def _len_case(vals, acc):
         except Exception as e:
             got = 'raises ' + type(e).__name__
         if got != want:
-            acc.fail('check_string_length', {'value': repr(value)[:40], 'min': lo, 'max': hi,
+            acc.fail('check_string_length', {'value': repr(value)[:40], 'name': name, 'min': lo,
+                                             'max': hi, 'lazy_translation': lazy,
                                              'got': got, 'want': want},
-                     {'len': [repr(value), lo, hi]})
+                     {'len': [repr(value), lo, hi], 'lazy': lazy})
             return
 
 
@@ -209,10 +239,23 @@ def decorate(body, deco):
         return 'urn:uuid:' + body
     if deco == 'braced-plain':
         return '{' + body + '}'
+    # the decorations compose (uuid.UUID removes 'urn:' and 'uuid:' wherever they are,
+    # then braces, then hyphens), in either nesting order
+    if deco == 'braced-urn':
+        return '{urn:uuid:' + decorate(body, 'hyphenated') + '}'
+    if deco == 'urn-braced':
+        return 'urn:uuid:{' + decorate(body, 'hyphenated') + '}'
+    if deco == 'braced-uuid-plain':
+        return '{uuid:' + body + '}'
+    if deco == 'uuid-only':
+        return 'uuid:' + decorate(body, 'hyphenated')
+    if deco == 'urn-only':
+        return 'urn:' + body
     raise ValueError(deco)
 
 
-DECOS = ['plain', 'hyphenated', 'braced', 'urn', 'urn-plain', 'braced-plain']
+DECOS = ['plain', 'hyphenated', 'braced', 'urn', 'urn-plain', 'braced-plain',
+         'braced-urn', 'urn-braced', 'braced-uuid-plain', 'uuid-only', 'urn-only']
 DEFECTS = ['none', '0x-prefix', 'non-hex', 'underscore', 'leading-space', 'trailing-space',
            'plus', 'trailing-newline', 'inner-tab', 'hyphen-for-digit', 'hyphen-for-last-digit',
            'two-hyphens-for-digits']
@@ -244,10 +287,7 @@ def _uuid_case(vals, acc):
         body = body[:-1] + '-'
     elif defect == 'two-hyphens-for-digits':
         body = '-' + body[1:10] + '-' + body[11:]
-    text = decorate(body, deco)
-    if upper:
-        text = text.upper() if deco in ('plain', 'hyphenated', 'braced', 'braced-plain') else \
-            text[:9] + text[9:].upper()
+    text = decorate(body.upper() if upper else body, deco)
     # hyphens are decoration: what counts is the number of hex digits left
     lost = {'hyphen-for-digit': 1, 'hyphen-for-last-digit': 1, 'two-hyphens-for-digits': 2}
     want = (defect == 'none' and n == 32) or (defect in lost and n - lost[defect] == 32)
@@ -268,8 +308,9 @@ def run(ctx):
         for form in (w, w.upper(), w.title()):
             for a, b in PADS:
                 subjects.append(a + form + b)
-    subjects += NEAR + NONSTR
-    E.run(rep, 'bool', [subjects, [False, True], [True, False, None]], _bool_case)
+    subjects += NEAR + NONSTR + ['%d', '%(val)s', '100%', '{0}']
+    E.run(rep, 'bool', [subjects, [False, True], [True, False, None], [False, True]],
+          with_lazy(_bool_case))
     bounds = [None, -1, 0, 10]
     pairs = [(a, b) for a in bounds for b in bounds if a is None or b is None or a <= b]
     values = []
@@ -285,8 +326,8 @@ def run(ctx):
         if k not in seen:
             seen.add(k)
             uniq.append(v)
-    E.run(rep, 'integers', [[(v, a, b) for v in uniq for a, b in pairs]],
-          lambda vals, acc: _int_case(vals[0], acc))
+    E.run(rep, 'integers', [[(v, a, b) for v in uniq for a, b in pairs], [False, True]],
+          with_lazy(lambda vals, acc, lazy: _int_case(vals[0], acc, lazy)))
     lens = []
     for lo in (0, 1, 3):
         for hi in (None, 1, 3, 5):
@@ -294,7 +335,12 @@ def run(ctx):
                 lens.append(('x' * n, lo, hi))
             for bad in (None, 5, b'abc', ['a'], 1.5):
                 lens.append((bad, lo, hi))
-    E.run(rep, 'lengths', [lens], lambda vals, acc: _len_case(vals[0], acc))
+            # text that is itself a format string: it only ever appears in a message
+            for fmt in ('%d', 'x%dy', '%s', '%%', '100% done', '%(key)s', '%(name)s%(value)s', '{0}',
+                        '{name}', '%', '%5.2f%c', '%r'):
+                lens.append((fmt, lo, hi))
+    E.run(rep, 'lengths', [lens, [False, True]],
+          with_lazy(lambda vals, acc, lazy: _len_case(vals[0], acc, lazy)))
     E.run(rep, 'uuid-shapes', [[30, 31, 32, 33, 34], DECOS, DEFECTS, [False, True],
                                [ctx.seed, ctx.seed + 1, ctx.seed + 2]], _uuid_case)
     # non-strings are not UUID-like, and must not raise
@@ -337,15 +383,16 @@ def replay(payload):
     from oslo_utils import uuidutils
     import ast
     acc = _Acc()
+    lazy = bool(payload.get('lazy'))
     if 'bool' in payload:
         s, strict, default = payload['bool']
-        _bool_case((ast.literal_eval(s), strict, default), acc)
+        with_lazy(_bool_case)((ast.literal_eval(s), strict, default, lazy), acc)
     elif 'int' in payload:
         v, lo, hi = payload['int']
-        _int_case((ast.literal_eval(v), lo, hi), acc)
+        with_lazy(_int_case)((ast.literal_eval(v), lo, hi, lazy), acc)
     elif 'len' in payload:
         v, lo, hi = payload['len']
-        _len_case((ast.literal_eval(v), lo, hi), acc)
+        with_lazy(_len_case)((ast.literal_eval(v), lo, hi, lazy), acc)
     elif 'uuid' in payload:
         try:
             got = uuidutils.is_uuid_like(payload['uuid'])
